@@ -18,6 +18,7 @@ package decryptor
 
 import (
 	"context"
+	"encoding/hex"
 	"fmt"
 
 	"github.com/sirupsen/logrus"
@@ -134,10 +135,19 @@ func (encryptor *HashQuery) OnQuery(ctx context.Context, query mysql.OnQueryObje
 				},
 			}
 
-			// hex string literal X'AB' keeps only the digits as value, hex number literal 0xAB keeps the prefix too:
-			// spell the former as the latter, otherwise the digits themselves would be hashed instead of the bytes they stand for
-			if rVal.Type == sqlparser.HexVal {
+			// the literal becomes a hex number literal (0x..), the spelling its HMAC is written in below. Its value has to be
+			// taken with the literal's own kind before the kind is switched: a hex string literal X'AB' keeps only the digits
+			// (the digits themselves would be hashed instead of the bytes they stand for), and a string or number literal
+			// is its text even if that text starts with 0x ('0x78' is four characters, not the byte 0x78)
+			switch rVal.Type {
+			case sqlparser.HexNum:
+			case sqlparser.HexVal:
 				rVal.Val = append([]byte("0x"), rVal.Val...)
+			default:
+				spelled := make([]byte, 2+hex.EncodedLen(len(rVal.Val)))
+				copy(spelled, "0x")
+				hex.Encode(spelled[2:], rVal.Val)
+				rVal.Val = spelled
 			}
 			rVal.Type = sqlparser.HexNum
 		}
